@@ -288,7 +288,7 @@ def transform_harness(spec, mode, props, dtype=None):
                 bad = []
                 if ok:
                     for b in range(B):
-                        for t in list(po[b].reshape(-1)) + [pl[b]]:
+                        for t in list(np.asarray(po[b], dtype=object).reshape(-1)) + [pl[b]]:
                             for sid in base_symbols(t):
                                 if sid in row_of and row_of[sid][1][0] != b:
                                     bad.append((b, row_of[sid]))
